@@ -33,6 +33,8 @@ type FieldDecl struct {
 	Found    map[string][]string // function -> positions of writes (computed)
 	Violated []string
 	Props    []string
+	Pointee  bool // the declaration covers the object the pointer field points to (T.f*)
+	ptSorts  []Sort
 }
 
 func (e *Engine) parseFieldDecls() error {
@@ -49,6 +51,8 @@ func (e *Engine) parseFieldDecls() error {
 		if len(head) > 2 && head[1] == "props" {
 			props = head[2:]
 		}
+		pointee := strings.HasSuffix(head[0], "*")
+		head[0] = strings.TrimSuffix(head[0], "*")
 		tf := strings.SplitN(head[0], ".", 2)
 		if len(tf) != 2 {
 			return fmt.Errorf("%s:%d: field T.f writers ...", d.File, d.Line)
@@ -79,6 +83,14 @@ func (e *Engine) parseFieldDecls() error {
 		fd.off = e.fieldOff(st, fd.idx)
 		fd.size = e.size(st.Field(fd.idx).Type())
 		fd.sorts = e.memLeafSorts(st.Field(fd.idx).Type())
+		if pointee {
+			pt, ok := st.Field(fd.idx).Type().Underlying().(*types.Pointer)
+			if !ok {
+				return fmt.Errorf("%s:%d: %s.%s is not a pointer field", d.File, d.Line, fd.Struct, fd.Field)
+			}
+			fd.Pointee = true
+			fd.ptSorts = e.memLeafSorts(pt.Elem())
+		}
 		e.FieldDecls = append(e.FieldDecls, fd)
 	}
 	e.analyseWriteSets()
@@ -195,6 +207,12 @@ func (e *Engine) analyseWriteSets() {
 						if fd.idx != in.Field || !types.Identical(pt, fd.named) {
 							continue
 						}
+						if fd.Pointee {
+							if w := e.pointeeWrite(in); w != "" {
+								fd.Found[key] = append(fd.Found[key], w)
+							}
+							continue
+						}
 						for _, r := range *in.Referrers() {
 							if e.addrUseIsWrite(in, r, 0) {
 								fd.Found[key] = append(fd.Found[key], e.Fset.Position(r.Pos()).String())
@@ -205,6 +223,9 @@ func (e *Engine) analyseWriteSets() {
 				case *ssa.Store:
 					// whole-struct store through a *T (or of a value containing T)
 					for _, fd := range e.FieldDecls {
+						if fd.Pointee {
+							continue
+						}
 						if containsNamed(in.Val.Type(), fd.named, 0) {
 							if a := rootAlloc(in.Addr); a != nil && !a.Heap && a.Parent() == fn {
 								// store into a non-escaping local copy
@@ -384,6 +405,37 @@ func (x *Exec) noteSlice(s *State, v Value) {
 // noteRegion: Go type safety — typed regions whose types are unrelated (neither
 // contains the other by value) are disjoint.
 func (x *Exec) noteRegion(s *State, a notedAddr) {
+	// allocation classes: a pointer to a standalone struct type (never embedded by
+	// value in another type of the package) points to the start of an allocation of
+	// exactly that type; a slice's backing array is never such an allocation unless
+	// the struct contains an array of the element type.
+	x.C.DeclareFun("cls", []Sort{SInt}, SInt)
+	nz := Not(Eq(a.ref, IntLit(0)))
+	if !a.slice {
+		if n, ok := a.typ.(*types.Named); ok && x.E.standalone(n) {
+			x.C.Assume(Implies(And(s.Reach, nz), And(Eq(app(SInt, "cls", a.ref), IntLit(x.E.typeID(n))), Eq(a.off, BVLitI(64, 0)))))
+			x.C.Trusted["Go type safety: a pointer to a struct type that is never embedded by value points to the start of an allocation of that type"] = true
+			if !x.clsStructs[n] {
+				x.clsStructs[n] = true
+				for _, b := range x.notedAll {
+					if b.slice && !containsArrayOf(n, b.typ, 0) && !typeContains(b.typ, n, 0) {
+						x.C.Assume(Implies(Not(Eq(b.ref, IntLit(0))), Not(Eq(app(SInt, "cls", b.ref), IntLit(x.E.typeID(n))))))
+					}
+				}
+			}
+		}
+	} else {
+		var ns []*types.Named
+		for n := range x.clsStructs {
+			ns = append(ns, n)
+		}
+		sort.Slice(ns, func(i, j int) bool { return x.E.typeID(ns[i]) < x.E.typeID(ns[j]) })
+		for _, n := range ns {
+			if !containsArrayOf(n, a.typ, 0) && !typeContains(a.typ, n, 0) {
+				x.C.Assume(Implies(And(s.Reach, nz), Not(Eq(app(SInt, "cls", a.ref), IntLit(x.E.typeID(n))))))
+			}
+		}
+	}
 	for _, b := range x.notedAll {
 		if b.ref.S == a.ref.S && b.off.S == a.off.S {
 			continue
@@ -446,6 +498,18 @@ func (e *Engine) related(a, b *types.Named) bool {
 
 func (x *Exec) instFrame(fr frameRec, a notedAddr) {
 	var eqs []Term
+	if fr.fd.Pointee {
+		// the object the (unchanged) pointer field points to keeps its leaves
+		fo := offAdd(a.off, fr.fd.off)
+		pref := Select(Select(fr.pre[SInt], a.ref, ObjSort(SInt)), fo, SInt)
+		poff := Select(Select(fr.pre[SBV64], a.ref, ObjSort(SBV64)), offAdd(fo, 1), SBV64)
+		for i, k := range fr.fd.ptSorts {
+			oo := offAdd(poff, int64(i))
+			eqs = append(eqs, Eq(Select(Select(fr.post[k], pref, ObjSort(k)), oo, k), Select(Select(fr.pre[k], pref, ObjSort(k)), oo, k)))
+		}
+		x.C.Assume(And(eqs...))
+		return
+	}
 	for i, k := range fr.fd.sorts {
 		oo := offAdd(a.off, fr.fd.off+int64(i))
 		eqs = append(eqs, Eq(Select(Select(fr.post[k], a.ref, ObjSort(k)), oo, k), Select(Select(fr.pre[k], a.ref, ObjSort(k)), oo, k)))
@@ -598,4 +662,133 @@ func (e *Engine) regionsRelated(a, b notedAddr) bool {
 		return r
 	}
 	return e.typesRelated(a.typ, b.typ)
+}
+
+// pointeeWrite: for a pointer field under a pointee declaration, every load of
+// the field may only be used as the receiver of sync/atomic methods (or be
+// compared); it reports the first use in this FieldAddr that is a write or an
+// escape ("" if all uses only read).
+func (e *Engine) pointeeWrite(fa *ssa.FieldAddr) string {
+	for _, r := range *fa.Referrers() {
+		switch u := r.(type) {
+		case *ssa.DebugRef:
+		case *ssa.Store:
+			// assigning the pointer itself is governed by the plain declaration of the field
+			if u.Val == ssa.Value(fa) {
+				return e.Fset.Position(u.Pos()).String()
+			}
+		case *ssa.UnOp:
+			if u.Op != token.MUL {
+				return e.Fset.Position(u.Pos()).String()
+			}
+			for _, vr := range *u.Referrers() {
+				switch c := vr.(type) {
+				case *ssa.DebugRef:
+				case *ssa.BinOp:
+				case *ssa.Call:
+					callee := c.Call.StaticCallee()
+					if callee == nil || len(c.Call.Args) == 0 || c.Call.Args[0] != ssa.Value(u) || !strings.HasPrefix(e.fnKey(callee), "(*atomic.") {
+						return e.Fset.Position(c.Pos()).String()
+					}
+					if callee.Name() != "Load" {
+						return e.Fset.Position(c.Pos()).String()
+					}
+				default:
+					return e.Fset.Position(vr.Pos()).String()
+				}
+			}
+		default:
+			return e.Fset.Position(r.Pos()).String()
+		}
+	}
+	return ""
+}
+
+// standaloneTypes: the package's named struct types that no type of the package
+// contains by value (as a field, array element or slice element).
+func (e *Engine) standaloneTypes() []*types.Named {
+	if e.standaloneList != nil {
+		return e.standaloneList
+	}
+	var structs []*types.Named
+	scope := e.TPkg.Scope()
+	for _, name := range scope.Names() {
+		if tn, ok := scope.Lookup(name).(*types.TypeName); ok {
+			if n, ok := tn.Type().(*types.Named); ok {
+				if _, ok := n.Underlying().(*types.Struct); ok && n.TypeParams().Len() == 0 {
+					structs = append(structs, n)
+				}
+			}
+		}
+	}
+	embedded := map[*types.Named]bool{}
+	var mark func(t types.Type, depth int)
+	mark = func(t types.Type, depth int) {
+		if depth > 6 {
+			return
+		}
+		switch u := t.(type) {
+		case *types.Named:
+			if _, ok := u.Underlying().(*types.Struct); ok {
+				embedded[u] = true
+			}
+		case *types.Array:
+			mark(u.Elem(), depth+1)
+		case *types.Slice:
+			mark(u.Elem(), depth+1)
+		case *types.Map:
+			mark(u.Elem(), depth+1)
+			mark(u.Key(), depth+1)
+		case *types.Chan:
+			mark(u.Elem(), depth+1)
+		}
+	}
+	// fields of every struct type, element types of every composite type mentioned in the package
+	for _, n := range structs {
+		st := n.Underlying().(*types.Struct)
+		for i := 0; i < st.NumFields(); i++ {
+			mark(st.Field(i).Type(), 0)
+		}
+	}
+	for _, tv := range e.PPkg.TypesInfo.Types {
+		switch u := tv.Type.(type) {
+		case *types.Array:
+			mark(u.Elem(), 0)
+		case *types.Slice:
+			mark(u.Elem(), 0)
+		case *types.Map:
+			mark(u.Elem(), 0)
+		case *types.Chan:
+			mark(u.Elem(), 0)
+		}
+	}
+	// external named struct types the package handles by pointer (sync/atomic values, transports of
+	// other packages, ...) are allocation classes too unless the package embeds them by value
+	seenExt := map[*types.Named]bool{}
+	for _, tv := range e.PPkg.TypesInfo.Types {
+		if pt, ok := tv.Type.(*types.Pointer); ok {
+			if n, ok := pt.Elem().(*types.Named); ok && n.Obj().Pkg() != e.TPkg && !seenExt[n] && n.TypeParams().Len() == 0 {
+				if _, ok := n.Underlying().(*types.Struct); ok {
+					seenExt[n] = true
+					structs = append(structs, n)
+				}
+			}
+		}
+	}
+	e.standaloneList = []*types.Named{}
+	for _, n := range structs {
+		if !embedded[n] {
+			e.standaloneList = append(e.standaloneList, n)
+		}
+	}
+	return e.standaloneList
+}
+
+func (e *Engine) standalone(n *types.Named) bool {
+	for _, m := range e.standaloneTypes() {
+		if m == n {
+			return true
+		}
+	}
+	return false
 }
